@@ -2,7 +2,7 @@
 from hypothesis import strategies as st
 
 ASCII = list('abAB \t\n-:+01x')
-NONASCII = list('éßİǆ中')
+NONASCII = list('éßİǆ中') + ['\xa0', '\x1c', '\u2003', '\x85']   # incl. white space that only str.isspace() knows
 
 
 def texts(min_size=0, max_size=10, esc=False, nonascii=True, alphabet=None):
@@ -63,8 +63,8 @@ def wf_spec():
         st.sampled_from([1, 2, 3, 4, 22, 24, 31, 34, 39, 41, 49, 21, 9, 29, 10, 11, 12, 10]).map(lambda i: {'k': 'int', 'v': i}),
         st.sampled_from(['1', '31', '1;31', '4;34', '22', '39', '38;5;200', '1;38;5;200', '48;2;1;2;3;3', '58;5;3;4']).map(
             lambda s: {'k': 'str', 'v': s}),
-        st.sampled_from(['1', '31', '38;5;214', '48;2;1;2;3', '22', '39', '2']).map(lambda s: {'k': 'verb', 'v': s}),
-        st.sampled_from(['1', '34', '38;5;214', '24', '49']).map(lambda s: {'k': 'aset', 'v': s}),
+        st.sampled_from(['1', '31', '38;5;214', '48;2;1;2;3', '22', '39', '2', '01', '04', '038;5;9', '031']).map(lambda s: {'k': 'verb', 'v': s}),
+        st.sampled_from(['1', '34', '38;5;214', '24', '49', '03', '048;5;007']).map(lambda s: {'k': 'aset', 'v': s}),
         st.tuples(st.lists(byte, min_size=3, max_size=3), comp).map(lambda t: {'k': 'rgb', 'a': t[0], 'c': t[1]}),
         st.tuples(byte, comp).map(lambda t: {'k': 'c256', 'a': t[0], 'c': t[1]}),
     )
